@@ -190,7 +190,10 @@ theorem one_replyHeaders {O : Nat → Resp} (hO : Cacheable O) {s : State} (h : 
         simp [hkp, find_one h]
       rw [hrem, he]
       dsimp only
-      simp only [hrel, Bool.false_eq_true, if_false]
+      have hra : reuseAnswer s.relFirst false (O 0).hdr.reuse = (O 0).hdr.reuse := by
+        unfold reuseAnswer
+        cases s.relFirst <;> simp
+      rw [hrel, hra]
       have hmp : makePublic s 0 = (s, true) := by
         unfold makePublic
         rw [he]
@@ -353,6 +356,6 @@ theorem zero_run {O : Nat → Resp} (hO : Cacheable O) {s : State} (h : Zero s) 
     · exact ih hz hc.2
     · exact Or.inr (one_run hO ho as hc.2)
 
-theorem zero_init : Zero (State.init true) := ⟨rfl, rfl, rfl, fun _ => rfl, fun _ => rfl⟩
+theorem zero_init (rf : Bool) : Zero (State.init true rf) := ⟨rfl, rfl, rfl, fun _ => rfl, fun _ => rfl⟩
 
 end SquidModel.Cache.Collapse
